@@ -58,6 +58,19 @@ def sf_case(draw):
     if lattice.startswith("ortho") and lattice != "ortho_P":
         spec["basis"] = spec["basis"][: (1 if lattice == "ortho_F" else 2)]
     centering = lattice.split("_")[1]
+    if centering == "P" and draw(st.integers(0, 3)) == 0:
+        # supercell-like primitive crystal (as from ``atoms * (2, 1, 1)``): every atom has a
+        # partner of the same species half a cell further along one axis
+        axis = draw(st.integers(0, 2))
+        half = []
+        for z, *p in spec["basis"][:2]:
+            q = list(p)
+            q[axis] = round((q[axis] + 0.5) % 1.0, 6)
+            half.append([z, *q])
+        first = [list(b) for b in spec["basis"][:2]]
+        if not {tuple(b[1:]) for b in half} & {tuple(round(v, 6) for v in b[1:]) for b in first}:
+            spec["basis"] = first + half
+            spec["doubled_axis"] = axis
     vol = spec["a"] * spec["b"] * spec["c"] * (math.sqrt(3) / 2 if lattice == "hex_P" else 1.0)
     g = draw(st.sampled_from([1.5, 2.0, 3.0, 4.0]) | gen.floats(1.5, 4.0).map(lambda v: round(v, 3)))
     g_max = round(min(g, (MAX_HKL / (4.19 * vol)) ** (1 / 3)), 3)
@@ -171,6 +184,7 @@ def _labels(case, ctx):
     ctx.label(case["crystal"]["lattice"])
     ctx.label("declared:" + case["declared"])
     ctx.label("sigma:" + case["sigma_kind"])
+    ctx.label("half-cell translation", "doubled_axis" in case["crystal"])
     ctx.nontrivial(_nontrivial(case))
 
 
